@@ -112,6 +112,15 @@ class DocActions(object):
     self._engine.out_actions.undo.append(actions.ReplaceTableData(*old_data))
     self._engine.out_actions.summary.remove_records(table_id, old_data[1])
     self._engine.out_actions.summary.add_records(table_id, row_ids)
+
+    # Unset the old rows and invalidate them, as BulkRemoveRecord does, so that lookup indexes and
+    # reference relations forget them, and anything that depends on them gets recomputed.
+    table = self._engine.tables[table_id]
+    for column in table.all_columns.values():
+      for row_id in old_data[1]:
+        column.unset(row_id)
+    self._engine.invalidate_records(table_id, old_data[1])
+
     self._engine.load_table(actions.TableData(table_id, row_ids, column_values))
 
   #----------------------------------------
